@@ -210,6 +210,9 @@ fn eval_internal(mem: &mut Memory, mut expression: GcRef, mut env: GcRef, mut en
 
     // loop is only used to jump back to the beginning of the function (using `continue`); never runs until the end more than once
     loop { 
+        #[cfg(picilisp_verif)]
+        verif_poll();
+
         if let Some(umb) = &mem.umbilical {
             if let Ok(msg) = umb.from_high_end.try_recv() {
                 match msg.get("command").map(|s| s.as_str()) {
@@ -597,3 +600,8 @@ pub fn load_all(mem: &mut Memory, args: &[GcRef], _env: GcRef, recursion_depth: 
 
 #[cfg(test)]
 mod tests;
+
+#[cfg(picilisp_verif)]
+mod verif_hooks;
+#[cfg(picilisp_verif)]
+pub use verif_hooks::*;
